@@ -215,6 +215,11 @@ pub fn render_alias(into: &[String], from: &[String], f: &Fmt, blank_lines: bool
                 s.push_str("# note");
                 s.push_str(nl);
             }
+            if l.is_empty() {
+                // a blank line inside a section (the reader keeps it as an empty alias line)
+                s.push_str(nl);
+                continue;
+            }
             s.push_str(f.indent);
             s.push_str(l);
             s.push_str(nl);
@@ -362,7 +367,15 @@ pub fn maybe_untitled_after_description(groups: &mut Vec<Group>, d: &Data, r: &m
 
 pub fn gen_model(d: &Data, r: &mut Rng) -> Model {
     let wild = r.chance(1, 4);
-    let (into, from) = if r.chance(1, 2) { gen::gen_aliases(r) } else { (vec![], vec![]) };
+    let (mut into, mut from) = if r.chance(1, 2) { gen::gen_aliases(r) } else { (vec![], vec![]) };
+    // blank lines inside the sections of an alias file are kept by the reader as empty alias
+    // lines (and count in the library's line numbers)
+    for list in [&mut into, &mut from] {
+        if !list.is_empty() && r.chance(1, 4) {
+            let at = r.below(list.len() + 1);
+            list.insert(at, String::new());
+        }
+    }
     let words = gen_words(d, r);
     let mut rules = gen_groups(d, r, 4, wild);
     maybe_untitled_first(&mut rules, d, r);
